@@ -1089,6 +1089,8 @@ def run(ctx):
     from . import C14
 
     imported(ctx, C14.rule_K6)
+    # the CCFs a user reads are those of the result table: copied unchanged from the MAP dictionaries (C12.N3 / N4)
+    imported(ctx, C12.rule_N3_N4)
 
 
 # Self-test catalogue: one textual edit each (or a list of edits), applied to a scratch copy (see selftest.py).
